@@ -1334,7 +1334,13 @@ func (s *BlockAttrsSpec) decode(content *hcl.BodyContent, blockLabels []blockLab
 		attrVal, attrDiags := attr.Expr.Value(ctx)
 		diags = append(diags, attrDiags...)
 
+		srcVal := attrVal
 		attrVal, err := convert.Convert(attrVal, s.ElementType)
+		if err != nil && srcVal.ContainsMarked() {
+			// As for AttrSpec: the conversion error may quote map keys or
+			// attribute names of a marked value, so we only describe the wanted type.
+			err = fmt.Errorf("%s required", s.ElementType.FriendlyNameForConstraint())
+		}
 		if err != nil {
 			diags = append(diags, &hcl.Diagnostic{
 				Severity:    hcl.DiagError,
